@@ -611,9 +611,10 @@ class atom(boolean.AndRestriction):
                 other
             )
 
-        # If we are both ~ matches we match if we are identical:
+        # If we are both ~ matches we match if our versions are equal
+        # (compared as versions, not as strings: 1.0 and 1.00 are the same):
         if self.op == other.op == "~":
-            return self.version == other.version and self.revision == other.revision
+            return cpv.ver_cmp(self.version, None, other.version, None) == 0
 
         # If we are both glob matches we match if one of us matches the other.
         if self.op == other.op == "=*":
